@@ -461,7 +461,16 @@ func c19Real(c *core.Case, o *core.Outcome) {
 		} else {
 			res.GetTotals()
 		}
-		desc := fmt.Sprintf("real Result S=%d F=%d D=%d opts=%+v err=%v", s, f, d, opts, res.Error())
+		// stragglers: outcomes recorded after the totals were taken (iterations finishing after the completion
+		// timeout); the summary is rendered from the result, whose counts and verdict were fixed by the snapshot
+		stragglers := 0
+		if r.IntN(3) == 0 {
+			stragglers = 1 + r.IntN(5)
+			for k := 0; k < stragglers; k++ {
+				stats.Record(pick(r, metrics.SuccessResult, metrics.FailedResult, metrics.DroppedResult), int64(1+r.IntN(1e6)))
+			}
+		}
+		desc := fmt.Sprintf("real Result S=%d F=%d D=%d opts=%+v err=%v stragglers-after-totals=%d", s, f, d, opts, res.Error(), stragglers)
 		func() {
 			defer func() {
 				if pv := recover(); pv != nil {
@@ -519,7 +528,7 @@ func c19Real(c *core.Case, o *core.Outcome) {
 			o.AddObs("coloured_renders", 2)
 		}
 		o.Events += 2
-		o.Sig("real:s=%v:f=%v:d=%v:err=%v:failed=%v:zero=%v:colour=%v", s > 0, f > 0, d > 0, res.Error() != nil, wantFailed, total == 0, cs)
+		o.Sig("real:s=%v:f=%v:d=%v:err=%v:failed=%v:zero=%v:colour=%v:stragglers=%v", s > 0, f > 0, d > 0, res.Error() != nil, wantFailed, total == 0, cs, stragglers > 0)
 		if i == 0 {
 			o.Sample = map[string]any{"data": desc, "rendered": plain, "progress": pplain}
 		}
